@@ -33,8 +33,9 @@
    which they arrive are chosen by the adversary.  A signature check is the world function [verify];
    the data it is applied to is string(session id) ++ exact consumed request bytes.
 
-   The boolean [fixed] selects the REPAIRED variant (proposed patch, see the end of this file);
-   [fixed = false] is the code as it is in /repo.  No proofs here. *)
+   [fixed = true] is the code in /repo since repair 208592d (see the end of this file) and is the variant the
+   correspondence is checked against; [fixed = false] is the code BEFORE that repair and is kept only as the
+   subject of the `_refuted` theorems (regression records of the defects).  No proofs here. *)
 From AV Require Import Base.Prelude.
 
 Definition user := list Z.
@@ -733,7 +734,7 @@ Fixpoint drive (w : world) (sid : bytes) (fixed : bool) (fuel : nat) (s : st) : 
   end.
 
 (* ---- the repair ----------------------------------------------------------------------------------
-   [fixed = true] models this patch of connection.py (SSHConnection._process_userauth_request):
+   [fixed = true] models /repo commit 208592d, this change of connection.py (SSHConnection._process_userauth_request):
 
          else:
    +         if self._auth:                       # a new request supersedes the attempt in progress NOW,
